@@ -291,9 +291,14 @@ def r4(ctx):
     locs = Locals(hir)
     bd = [x for x in walk(hir) if x["k"] == "Let" and x["pat"].get("name") == "base_depth"]
     ok = False
-    if len(bd) == 1 and bd[0]["init"]["k"] == "Match":
-        t = table_of(bd[0]["init"], lambda b: render(peel_result(b)))
-        ok = render(peel(bd[0]["init"]["scrut"])) == ps[4] and t.get("0") == "canonical_depth" and t.get("_") == ps[4]
+    if len(bd) == 1:
+        import interp
+        try:
+            top = interp.eval_in(hir, bd[0]["init"], {ps[4]: 0, "canonical_depth": 7})
+            below = [interp.eval_in(hir, bd[0]["init"], {ps[4]: r, "canonical_depth": 7}) for r in (1, 3, 9)]
+            ok = top == 7 and below == [1, 3, 9]
+        except interp.Undecided:
+            ok = False
     ctx.obligation(ok)
     if not ok:
         ctx.violation("recursion/base-depth", ctx.where(VISIT_DIR), "base depth must be the root's own canonical depth at the top level (root_depth = 0) and the inherited value below")
